@@ -17,6 +17,16 @@ Definition result_eqb (a b : result) : bool :=
   | _, _ => false
   end.
 
+Definition outcome_eqb (a b : outcome) : bool :=
+  match a, b with
+  | inl (Some (o1, c1)), inl (Some (o2, c2)) => String.eqb o1 o2 && N.eqb c1 c2
+  | inl None, inl None => true
+  | inr e1, inr e2 => rerr_eqb e1 e2
+  | _, _ => false
+  end.
+Definition via_eqb (a b : via) : bool :=
+  match a, b with ViaShell, ViaShell | ViaSubprocess, ViaSubprocess => true | _, _ => false end.
+
 Inductive ccase :=
 | CQuote (s r : string)                                   (* shlex.quote(s) = r *)
 | CWords (s : string) (r : option (list string))          (* argv /bin/sh derived from the text s; None: sh failed *)
@@ -25,7 +35,9 @@ Inductive ccase :=
 | CBuild (marker : string) (cmd : list string) (e : option env) (w : option string) (r : string)
 | CTemplate (e : option env) (r : string)                 (* rendered {{streamflow_environment}} *)
 | CFrame (marker : string) (evs : list ev) (r : result) (unread : nat)   (* BaseShell._read_with_output on a scripted reader *)
-| CSeq (cs : list cmd) (r : list (result * nat)).         (* BaseConnector.run sequence: results and start counts *)
+| CSeq (cs : list cmd) (r : list (result * nat))          (* BaseConnector.run sequence: results and start counts *)
+| CRunAny (q : req) (marker : string) (resp : list ev) (fresh : outcome)
+          (r : outcome) (starts : nat) (v : via).          (* one BaseConnector.run with job_name / stdin / capture_output *)
 
 Definition check_case (c : ccase) : bool :=
   match c with
@@ -46,4 +58,8 @@ Definition check_case (c : ccase) : bool :=
       let (r', rest) := read_with_output m EmptyString evs in
       result_eqb r' r && Nat.eqb (length rest) unread
   | CSeq cs r => list_eqb (pair_eqb result_eqb Nat.eqb) (run_all false new_shell cs) r
+  | CRunAny q m resp fresh r n v =>
+      match run_any false new_shell q m resp fresh with
+      | (r', _, n', v') => outcome_eqb r' r && Nat.eqb n' n && via_eqb v' v
+      end
   end.
